@@ -2155,10 +2155,11 @@ def _cbcoordchk(fout, K, bset, refpoint, grids, ttl, verbose, rb_normalizer):
 
     xyz = ytools.mkpattvec([0, 1, 2], rbmodes.shape[0], 6).ravel()
     coords, maxerr = rbdispchk(fout, rbmodes[xyz], grids, ttl, verbose)
-    if lq > 0:
-        rbmodes1 = rbmodes
-        rbmodes = np.zeros((lt, 6))
-        rbmodes[bset] = rbmodes1
+    # put the rows in the order of `K` (needed even without modal DOF:
+    # `bset` may not be ascending)
+    rbmodes1 = rbmodes
+    rbmodes = np.zeros((lt, 6))
+    rbmodes[bset] = rbmodes1
 
     return SimpleNamespace(
         coords=coords, rbmodes=rbmodes, maxerr=maxerr, refpoint_chk=refpoint_chk
